@@ -325,7 +325,11 @@ struct Runner {
   // model-side conservation: everything the containers own
   size_t total_model_size() const {
     size_t s = 0;
-    for (const Slot &sl : slots) s += sl.model.size();
+    int mode = fam.types[0]->ledgerMode;
+    for (const Slot &sl : slots) {
+      if (mode == 2) { for (const Val &v : sl.model) s += (v.key != 0 || v.pay != 0) ? 1 : 0; }
+      else s += sl.model.size() * (mode == 1 ? 2 : 1);
+    }
     return s;
   }
 
@@ -881,6 +885,17 @@ struct Runner {
     VecObs o = s.type->observe(s.obj);
     if (o.size > o.capacity) { viol(VK_FAULT, P(9), std::string(why) + ": size() > capacity()"); return; }
     if (!s.type->snapshot(s.obj, got, err)) { viol(VK_FAULT, P(9), std::string(why) + ": " + err); return; }
+    // a std::pair element whose own assignment was interrupted between its two members is alive and legal (basic guarantee of
+    // std::pair), but has no model value: empty the vector and go on
+    bool torn = false;
+    for (const Val &v : got) torn = torn || (v.key == -3 && v.pay == -3);
+    if (torn && s.type->ledgerMode == 1) {
+      IOp io; io.kind = V_CLEAR;
+      Result r;
+      s.type->apply(s.obj, nullptr, io, r);
+      got.clear();
+      if (stats) stats->probe("torn_pair_after_fault_cleared");
+    }
     s.model = got;
   }
 
@@ -1161,6 +1176,20 @@ struct Runner {
         }
         cell(18, s.typeIdx, cls, 6, 0);
       }
+    }
+    // ---- C18: whenever an operation other than reserve has to grow the buffer, the capacity grows by the constant factor (1.5),
+    // unless limited by the size_type
+    if (!G.viol.set() && res.outcome == OUT_RETURNED && t.flavour != FL_FIXED && !may_shrink(io.kind) && io.kind != V_RESERVE &&
+        post.capacity > pre.capacity && pre.capacity > 0) {
+      uint64_t want = (3ull * pre.capacity) / 2;
+      if (want > t.limit) want = t.limit;
+      if (post.capacity < want) {
+        char m[200];
+        snprintf(m, sizeof m, "%s had to grow the buffer and the capacity went from %zu to %zu: less than the constant factor 1.5 (size %zu -> %zu)",
+                 vec_op_name(io.kind), pre.capacity, post.capacity, pre.size, post.size);
+        G.violate(VK_GROWTH, P(18), m);
+      }
+      if (stats) stats->probe("growth_factor_checked");
     }
     // ---- C05 flag maintenance (the statement's own rule)
     if (!G.viol.set()) {
